@@ -244,6 +244,32 @@ type fault struct {
 	loses bool
 }
 
+// stickyFault: after the fault fired, every later request of the same command gets this region error until Commit has
+// returned (the region stays unavailable for the rest of the call: the sender's retries and the committer's own
+// region-error handling run out of budget)
+type stickyFault struct {
+	f      fault
+	sticky *errorpb.Error
+}
+
+// stickyFaults: a request/response is lost and the region answers nothing but region errors from then on.
+func stickyFaults(sh Shape) []stickyFault {
+	var out []stickyFault
+	for _, se := range []struct {
+		name string
+		e    *errorpb.Error
+	}{
+		{"region-not-found", &errorpb.Error{Message: "injected", RegionNotFound: &errorpb.RegionNotFound{}}},
+		{"not-leader", &errorpb.Error{Message: "injected", NotLeader: &errorpb.NotLeader{}}},
+	} {
+		for _, f := range []fault{dropResponse(sh), faults(sh)[0]} {
+			f.name += "+then-only-" + se.name
+			out = append(out, stickyFault{f, se.e})
+		}
+	}
+	return out
+}
+
 func regErr(e *errorpb.Error) func(*Env, *uni.Call) uni.Action {
 	return func(*Env, *uni.Call) uni.Action { return uni.Action{Kind: uni.RegionErr, RegErr: e} }
 }
@@ -312,9 +338,10 @@ func isCommitPoint(sh Shape, pt Point, primary string, asyncEffective bool) bool
 }
 
 type injected struct {
-	pt    Point
-	f     fault
-	fired atomic.Bool
+	pt     Point
+	f      fault
+	fired  atomic.Bool
+	sticky *errorpb.Error
 }
 
 func runFaults(r, tr *vrep.Report, sh Shape, primary string, plan []*injected) {
@@ -325,11 +352,21 @@ func runFaults(r, tr *vrep.Report, sh Shape, primary string, plan []*injected) {
 	}
 	defer env.Close()
 	m := NewMatcher()
+	commitReturned := make(chan struct{})
 	env.Victim.Net.SetDecider(func(c *uni.Call) uni.Action {
 		// one matcher call per request (it counts occurrences)
 		var hit *injected
 		s := Sig(c)
 		n := m.Count(c, s)
+		for _, in := range plan {
+			if in.sticky != nil && in.fired.Load() && c.Cmd == in.pt.Cmd {
+				select {
+				case <-commitReturned:
+				default:
+					return uni.Action{Kind: uni.RegionErr, RegErr: in.sticky}
+				}
+			}
+		}
 		for _, in := range plan {
 			if !in.fired.Load() && in.pt.Sig == s && in.pt.N == n {
 				in.fired.Store(true)
@@ -342,7 +379,7 @@ func runFaults(r, tr *vrep.Report, sh Shape, primary string, plan []*injected) {
 		}
 		return hit.f.mk(env, c)
 	})
-	rec := env.RunVictim(nil)
+	rec := env.RunVictim(commitReturned)
 	env.U.Drain()
 	var names []string
 	lost := false
@@ -446,6 +483,12 @@ func TestVerifC03(t *testing.T) {
 			for _, f := range fs {
 				runFaults(r, tr, sh, primary, []*injected{{pt: pt, f: f}})
 			}
+			if pt.Cmd == tikvrpc.CmdCommit || pt.Cmd == tikvrpc.CmdPrewrite {
+				for _, sf := range stickyFaults(sh) {
+					runFaults(r, tr, sh, primary, []*injected{{pt: pt, f: sf.f, sticky: sf.sticky}})
+					r.Count("sticky_fault_executions", 1)
+				}
+			}
 		}
 		// double faults: ordered pairs of (point, fault), sampled by the seed
 		nPairs := vrep.Pick(6, 60)
@@ -467,6 +510,7 @@ func TestVerifC03(t *testing.T) {
 	r.Floor("fault_executions", 200)
 	r.Floor("faults_on_commit_point_rpcs", 10)
 	r.Floor("answer_undetermined", 3)
+	r.Floor("sticky_fault_executions", 50)
 	_ = rand.Int
 	_ = sort.Strings
 }
